@@ -30,6 +30,7 @@ def scenarios(tier):
     out = []
     for ci, (conv, kw) in enumerate(CONVS):
         out.append({'name': f'get_index_for_point[{conv} {kw}]', 'fn': 'scn_lookup', 'kwargs': {'ci': ci}})
+        out.append({'name': f'get_index_for_point after an earlier lookup[{conv} {kw}]', 'fn': 'scn_lookup', 'kwargs': {'ci': ci, 'history': True}})
         out.append({'name': f'select_point[{conv} {kw}]', 'fn': 'scn_select_point', 'kwargs': {'ci': ci}})
     out += polygon_contract_scenarios()
     return out
@@ -40,7 +41,7 @@ def _hit(polys, pred, p, n, size):
     return mk_bool(z3.And(nz >= 0, nz < zint(size), z3.Not(polys.hole(nz)), pred(p.z, polys.poly(nz))))
 
 
-def scn_lookup(c, ci):
+def scn_lookup(c, ci, history=False):
     conv_name, kw = CONVS[ci]
     it = new_interp(use=POLY_KEYS)
     ds, conv = inputs.make_convention(it, c, conv_name, **kw)
@@ -49,9 +50,14 @@ def scn_lookup(c, ci):
     for n_ in shape:
         size = size * n_
     p = SVal(z3.FreshConst(GeomSort, 'point'))
+    if history:
+        # an earlier lookup of another point on the same convention object: the answer for p does not depend on it
+        p0 = SVal(z3.FreshConst(GeomSort, 'earlier_point'))
+        expect_ok(c, 'an earlier lookup returns', lambda: method(it, conv, 'get_index_for_point', p0))
+    n_ev = len(c.events)
     res = expect_ok(c, 'get_index_for_point returns (never raises)', lambda: method(it, conv, 'get_index_for_point', p))
     polys = abstract_polygons(conv)
-    ev = c.events
+    ev = c.events[n_ev:]
     q = [e for e in ev if e[0] == 'STRtree.query']
     c.check('exactly one spatial query, of the point itself, with predicate intersects (contains or touches)',
             len(q) == 1 and q[0][2] is p and q[0][3] == 'intersects' and q[0][1] is polys)
